@@ -28,6 +28,8 @@ pub struct MInst {
     pub writers: BTreeSet<u32>,
     /// source timestamp of the last sample of this instance that passed the time-based filter
     pub last_passed_ts: Option<i64>,
+    /// dgc + nwgc when the most recent sample of the instance was received (it may have been taken since)
+    pub mrs_generation: i32,
 }
 
 #[derive(Clone, Debug, PartialEq)]
@@ -125,7 +127,7 @@ impl Model {
                     return Rx::Rejected(reasons);
                 }
                 // instance life cycle (figure 2.11)
-                let e = self.inst.entry(key).or_insert(MInst { key, state: ALIVE, new: true, dgc: 0, nwgc: 0, writers: BTreeSet::new(), last_passed_ts: None });
+                let e = self.inst.entry(key).or_insert(MInst { key, state: ALIVE, new: true, dgc: 0, nwgc: 0, writers: BTreeSet::new(), last_passed_ts: None, mrs_generation: 0 });
                 match e.state {
                     DISPOSED => {
                         e.state = ALIVE;
@@ -142,6 +144,7 @@ impl Model {
                 e.writers.insert(writer);
                 e.last_passed_ts = Some(ts);
                 let (dgc, nwgc) = (e.dgc, e.nwgc);
+                e.mrs_generation = dgc + nwgc;
                 if will_replace {
                     if let Some(pos) = self.samples.iter().position(|s| s.key == key) {
                         self.samples.remove(pos);
